@@ -6,15 +6,18 @@ QuickNP == 1..4
 QuickPads == {0, 3}
 QuickOffs == {0, 7}
 ThorNS == 5..40
-ThorNB == 5..10
-ThorNP == 1..5
+ThorNB == 5..9
+ThorNP == 1..4
 \* all eight workers, smaller lengths
-WideNS == 8..22
-WideNB == {5, 7}
+WideNS == 8..16
+WideNB == {5, 6}
 WideNP == {7, 8}
 OneNS == {6000}
 OneNB == {4096}
 OneNP == {2}
+MidNS == 6..22
+MidNB == {5, 6, 8}
+MidNP == {5, 6}
 NoPad == {0}
 NoOff == {0}
 \* real-magnitude tuples (T = 1024) classified by the implementation layer before the fix: which worker
